@@ -39,8 +39,8 @@ Proof. exact inl_shl_sound. Qed.
 Theorem C01_inline_shr_sound : forall env r a n, okn env a -> 0 < snd r -> 0 <= n < 2 ^ 31 ->
   forall l e, inl_shr r a n = [(l, e)] -> assign_value env l e = ShiftRightConstant_propagate (snd r) n (val env a).
 Proof. exact inl_shr_sound. Qed.
-(* guard: 1-bit select (wider selects: C01_mux2_wide_select_refuted) *)
-Theorem C01_inline_mux2_sound_partial : forall env r sel s0 s1, okn env sel -> snd sel = 1 -> okn env s0 -> okn env s1 -> 0 < snd r ->
+(* EVERY select width: the emitted condition is `sel & 1`, the bit Mux2.propagate tests (finding mux2-wide-select repaired) *)
+Theorem C01_inline_mux2_sound : forall env r sel s0 s1, okn env sel -> okn env s0 -> okn env s1 -> 0 < snd r ->
   forall l e, inl_mux2 r sel s0 s1 = [(l, e)] ->
   assign_value env l e = Mux2_propagate (snd r) (val env sel) (val env s0) (val env s1).
 Proof. exact inl_mux2_sound. Qed.
@@ -65,12 +65,13 @@ Theorem C01_inline_signedmul_sound : forall env r a b, okn env a -> okn env b ->
   assign_value env l e = SignedMul_propagate (snd a) (snd b) (snd r) (val env a) (val env b).
 Proof. exact inl_smul_sound. Qed.
 
-(* sign extension to a strictly wider result ({0{..}} for equal widths is illegal Verilog: a C03 finding) *)
-Theorem C01_inline_signextend_sound : forall env r a, okn env a -> snd a < snd r -> snd a - 1 < 2 ^ 31 ->
+(* sign extension to ANY result width (a result not wider than the operand is emitted as `assign r = a;` since the repair of
+   the C03 finding signextend-replication-count; the top bit of a scalar operand is written as the bare name) *)
+Theorem C01_inline_signextend_sound : forall env r a, okn env a -> 0 < snd r -> snd a - 1 < 2 ^ 31 ->
   forall l e, inl_signextend r a = [(l, e)] -> assign_value env l e = SignExtend_propagate (snd a) (snd r) (val env a).
 Proof. exact inl_signextend_sound. Qed.
-(* concatenation of ANY number >= 1 of operands of ANY widths (both MSBF and LSBF blocks: same emitter, same propagate) *)
-Theorem C01_inline_concat_sound : forall env r ins, ins <> [] -> Forall (okn env) ins -> 0 < snd r ->
+(* concatenation of ANY number of operands (none: `assign r = 0;`) of ANY widths (both MSBF and LSBF blocks: same emitter, same propagate) *)
+Theorem C01_inline_concat_sound : forall env r ins, Forall (okn env) ins -> 0 < snd r ->
   forall l e, inl_concat r ins = [(l, e)] ->
   assign_value env l e = ConcatenateMSBF_propagate (snd r) (map (fun n => (snd n, val env n)) ins) /\
   assign_value env l e = ConcatenateLSBF_propagate (snd r) (map (fun n => (snd n, val env n)) ins).
@@ -92,7 +93,7 @@ Proof. exact inl_nnary_sound. Qed.
 Theorem C01_inline_equal_sound : forall env r a b, okn env a -> okn env b -> 0 < snd r ->
   forall l e, inl_equal r a b = [(l, e)] -> assign_value env l e = b2z (val env a =? val env b).
 Proof. exact inl_equal_sound. Qed.
-(* guard: 0 <= K < 2^31 (an oversized K compared untruncated is the known finding equalconstant-oversized on the simulator side) *)
+(* guard: 0 <= K < 2^31 on the PRINTED constant; the repaired emitter prints K mod 2^w: see C01_inline_equalconst_masked_sound *)
 Theorem C01_inline_equalconst_sound : forall env r a v, okn env a -> 0 < snd r -> 0 <= v < 2 ^ 31 ->
   forall l e, inl_equalconst r a v = [(l, e)] -> assign_value env l e = b2z (val env a =? v).
 Proof. exact inl_equalconst_sound. Qed.
@@ -111,29 +112,16 @@ Theorem C01_bits_propagate_nth : forall wa lw v k, (k < wa)%nat ->
   nth k (BitsMSBF_propagate (Z.of_nat wa) lw v) 0 = Wire_put (nth k lw 0) (Z.land (py_shr v (Z.of_nat k)) 1).
 Proof. exact bits_propagate_nth. Qed.
 
-(* BodyReg vs Reg.clock over EVERY input history (d any width, 1-bit enable, any-width reset, |reset_value| < 2^31):
-   the value of rq after each edge equals the value Reg.clock prepares for q, provided rq starts equal to the stored
-   value truncated (which `reg rq = reset_value` establishes in Verilog; see C01_reg_powerup_refuted for the simulator side) *)
-Theorem C01_reg_sound_partial : forall w wd wr has_e has_r rv ins st rqv,
-  0 < w -> 0 < wd -> 0 < wr -> - 2 ^ 31 < rv < 2 ^ 31 -> Forall (in_ok wd wr) ins ->
+(* BodyReg vs Reg.clock over EVERY input history (data, enable and reset of ANY width, |reset_value| < 2^31; the repaired BodyReg
+   loads when e != 0, as Reg.clock does): the value of rq after each edge equals the value Reg.clock prepares for q, provided rq
+   starts equal to the stored value truncated (which `reg rq = reset_value` establishes in Verilog) *)
+Theorem C01_reg_sound : forall w wd we wr has_e has_r rv ins st rqv,
+  0 < w -> 0 < wd -> 0 < we -> 0 < wr -> - 2 ^ 31 < rv < 2 ^ 31 -> Forall (in_ok wd we wr) ins ->
   rqv = trunc w (Reg_s_value st) ->
-  vreg_traj w wd wr has_e has_r rv rqv ins = sreg_traj w has_e has_r rv st ins.
+  vreg_traj w wd we wr has_e has_r rv rqv ins = sreg_traj w has_e has_r rv st ins.
 Proof. exact reg_history. Qed.
 
 (* ---------------- refutations: classes excluded by the guards above are genuinely different (known findings) *)
-(* select = 2 on a 2-bit select: Verilog takes sel1 (sel != 0), the simulator takes sel0 (bit 0 is 0) *)
-Theorem C01_mux2_wide_select_refuted : exists env r sel s0 s1, okn env sel /\ okn env s0 /\ okn env s1 /\
-  match inl_mux2 r sel s0 s1 with [(l, e)] => assign_value env l e <> Mux2_propagate (snd r) (val env sel) (val env s0) (val env s1) | _ => False end.
-Proof.
-  exists [2; 5; 9; 0], (3%nat, 4), (0%nat, 2), (1%nat, 4), (2%nat, 4). unfold okn. cbn [fst snd getv nth].
-  repeat split; try lia. vm_compute. discriminate.
-Qed.
-(* enable = 2 on a 2-bit enable: BodyReg holds (e == 1 is false), Reg.clock loads (e != 0) *)
-Theorem C01_reg_wide_enable_refuted : exists st,
-  let env := [trunc 4 (Reg_s_value st); 9; 2; 0] in
-  let '(env1, q) := exec (body_reg_proc (0%nat, 4) (1%nat, 4) (Some (2%nat, 2)) None 0) (env, []) in
-  getv (apply_nbas env1 q) 0 <> snd (Reg_clock 4 true false 0 st 9 2 0).
-Proof. exists {| Reg_s_value := 0 |}. vm_compute. discriminate. Qed.
 (* power-up: `reg [3:0] rq = 3` is 3 before the first edge; the simulator's q wire is 0 (Wire.value initialised to 0) *)
 Theorem C01_reg_powerup_refuted :
   let f := {| f_nets := [mk_net "q" 4 false 0 false; mk_net "rq" 4 false 3 true]; f_assigns := [(RLId 0 4, RId 1 4 false)]; f_procs := [] |} in
@@ -154,7 +142,7 @@ Print Assumptions C01_inline_sub_sound.
 Print Assumptions C01_inline_addci_sound.
 Print Assumptions C01_inline_shl_sound.
 Print Assumptions C01_inline_shr_sound.
-Print Assumptions C01_inline_mux2_sound_partial.
+Print Assumptions C01_inline_mux2_sound.
 Print Assumptions C01_inline_range_sound.
 Print Assumptions C01_inline_bit_sound.
 Print Assumptions C01_inline_constant_sound.
@@ -171,7 +159,5 @@ Print Assumptions C01_inline_equalconst_sound.
 Print Assumptions C01_inline_equalconst_masked_sound.
 Print Assumptions C01_inline_bits_sound.
 Print Assumptions C01_bits_propagate_nth.
-Print Assumptions C01_reg_sound_partial.
-Print Assumptions C01_mux2_wide_select_refuted.
-Print Assumptions C01_reg_wide_enable_refuted.
+Print Assumptions C01_reg_sound.
 Print Assumptions C01_reg_powerup_refuted.
